@@ -107,11 +107,42 @@ def run(ctx):
                        "C06/laws/additive")
         except ValueError:
             s.fail({"bytes": hexb(bytes(b)), "cut": k}, "checksum is not hexadecimal", "C06/laws/not-hex")
-    if codec.make_checksum is not utils.make_checksum:
-        # codec must use the same function
-        b = b"1H|abc\r\x03"
-        if codec.make_checksum(b) != utils.make_checksum(b):
-            s.fail({"bytes": hexb(b)}, "codec.make_checksum differs from utils.make_checksum", "C06/laws/codec")
+    streams.append(s)
+
+    # --- every other function the package exposes under the name make_checksum (re-exports, wrappers) is the checksum
+    # function too: same oracle over all one- and two-byte inputs and every residue
+    s = Stream("other-bindings")
+    import importlib
+    import pkgutil
+    import senaite.astm as pkg
+    seen = {id(utils.make_checksum)}
+    for mi in pkgutil.walk_packages(pkg.__path__, pkg.__name__ + "."):
+        if ".tests" in mi.name:
+            continue
+        try:
+            mod = importlib.import_module(mi.name)
+        except Exception:
+            continue
+        fn = getattr(mod, "make_checksum", None)
+        if fn is None or id(fn) in seen or not callable(fn):
+            continue
+        seen.add(id(fn))
+        s.count(mi.name)
+        for b in cases:
+            if len(b) > 300:
+                continue
+            s.case({"binding": mi.name, "len": len(b)})
+            try:
+                got = "ok " + hexb(fn(b))
+            except Exception as e:  # noqa
+                got = "err " + type(e).__name__
+            why = oracle(sum(b), got)
+            if why:
+                s.fail({"binding": mi.name + ".make_checksum", "bytes": hexb(b), "impl": got}, why,
+                       "C06/binding/" + why.split(":")[0])
+                break
+    if not s.evaluations:
+        s.case({"note": "every binding named make_checksum is utils.make_checksum itself"})
     streams.append(s)
 
     # --- str input below U+0100 (in domain) and the Latin-1 agreement
